@@ -5046,7 +5046,10 @@ class FixedSized(Subconstruct):
         return f"restream(io.read({self.length}), lambda io: ({self.subcon._compileparse(code)}))"
 
     def _emitfulltype(self, ksy, bitwise):
-        return dict(size=repr(self.length).replace("this.",""), **self.subcon._compilefulltype(ksy, bitwise))
+        sub = self.subcon._compilefulltype(ksy, bitwise)
+        # the region is delimited here: a greedy subcon must not also claim the rest of the stream
+        sub.pop("size-eos", None)
+        return dict(size=repr(self.length).replace("this.",""), **sub)
 
 
 class NullTerminated(Subconstruct):
@@ -5119,7 +5122,10 @@ class NullTerminated(Subconstruct):
     def _emitfulltype(self, ksy, bitwise):
         if len(self.term) > 1:
             raise NotImplementedError
-        return dict(terminator=byte2int(self.term), include=self.include, consume=self.consume, eos_error=self.require, **self.subcon._compilefulltype(ksy, bitwise))
+        sub = self.subcon._compilefulltype(ksy, bitwise)
+        # the region is delimited here: a greedy subcon must not also claim the rest of the stream
+        sub.pop("size-eos", None)
+        return dict(terminator=byte2int(self.term), include=self.include, consume=self.consume, eos_error=self.require, **sub)
 
 
 class NullStripped(Subconstruct):
